@@ -3,6 +3,8 @@
 package main
 
 import (
+	"time"
+
 	"github.com/tinode/chat/server/auth"
 	"github.com/tinode/chat/server/store/types"
 )
@@ -150,3 +152,30 @@ func harnessC14Step(kind int) {
 
 func Harness_C14_step_grp() { harnessC14Step(verifKindGrp) }
 func Harness_C14_step_p2p() { harnessC14Step(verifKindP2P) }
+
+// Session termination with a request still in flight: cleanUp must wait for the in-flight request BEFORE it
+// tears the session's subscriptions down - otherwise a {sub} that completes after the tear-down leaves the
+// dead session attached for ever. cleanUp runs as its own goroutine; the harness observes the state at the
+// moment it parks.
+func Harness_C14_cleanup_waits_before_teardown() {
+	fx := verifNewTopic(verifKindGrp, 2)
+	t := fx.topic
+	verifNotified = nil
+	u := fx.uids[0]
+	s := verifNewSession("sid-a", u, auth.LevelAuth, 32)
+	s.inflightReqs = newBoundedWaitGroup(8)
+	s.bkgTimer = time.NewTimer(time.Hour)
+	fx.attach(s, u, false)
+	inflight := verifNondetBool("requestInFlight")
+	if inflight {
+		s.inflightReqs.Add(1)
+	}
+	blocked := verifRunUntilBlocked(func() { s.cleanUp(false) })
+	verifAssert(blocked == inflight, "cleanup-waits-exactly-while-a-request-is-in-flight")
+	if blocked {
+		verifAssert(len(t.unreg) == 0, "no-teardown-before-in-flight-requests-finished")
+	} else {
+		verifAssert(len(t.unreg) == 1, "terminated-session-leaves-its-topics")
+	}
+	verifReach("end")
+}
